@@ -34,6 +34,8 @@ ASSUMPTIONS = [
     "operations they cover.  Anything the real OSes do beyond this (history replay, dropped flags, 8.3 names, network shares) is not covered",
     "the emitters are driven by direct calls of queue_events() / events_callback() (what the emitter thread / the native callback do)",
     "POSIX path separators (the layers run on Linux under import shims)",
+    "with sticky historic flags (an item's Created flag repeated on its later events) a spurious created event next to the real one is "
+    "harmless for the replay; the exact one-event move contracts are judged only on histories rendered without sticky flags",
 ]
 MINIMUMS = {"quick": {"windows_histories": 300, "fsevents_histories": 300, "decoder_buffers": 8000},
             "thorough": {"windows_histories": 15000, "fsevents_histories": 15000, "decoder_buffers": 400000}}
@@ -381,7 +383,7 @@ def run_history(b: Batch, platform, cfg, k32=None):
                 b.violation(f"{platform}-event-outside-root", n, witness=wit, replay_spec=rs)
             # ---- the rename / move-in / move-out contract, judged when the operation is alone in its delivery
             deep_inside = lambda p_: p_.startswith(u.root_name + "/") and not recursive and p_[len(u.root_name) + 1:].count("/") >= 1  # noqa: E731
-            if len(last_seg) == 1 and last_seg[0]["op"][0] in ("rename", "move_in", "move_out") and not flags.get("cut_inside_op") \
+            if len(last_seg) == 1 and last_seg[0]["op"][0] in ("rename", "move_in", "move_out") and not flags.get("cut_inside_op") and not cfg.get("sticky") \
                     and not (platform == "fsevents" and (deep_inside(last_seg[0]["op"][1]) or deep_inside(last_seg[0]["op"][2]))):
                 rec = last_seg[0]
                 op = rec["op"]
@@ -392,9 +394,6 @@ def run_history(b: Batch, platform, cfg, k32=None):
                     return x is not None and x != "" and (recursive or "/" not in x)
 
                 prim = [e for e in new if not e.is_synthetic and e.event_type in ("moved", "created", "deleted")]
-                if cfg.get("sticky"):
-                    # a repeated historic Created flag legitimately yields the same created event twice: count identical ones once
-                    prim = [e for i_, e in enumerate(prim) if e not in prim[:i_]]
                 syn = [e for e in new if e.is_synthetic]
                 desc = rec["desc"] if (kind == "d" and recursive) else []
                 same_dir = vis(s_rel) and vis(d_rel) and (platform != "windows" or os.path.dirname(s_rel) == os.path.dirname(d_rel))
